@@ -69,6 +69,7 @@ def run(rep, tier, build, replay=None):
     outs2 = common.run_impl_parallel('run_lmf.py', [{'jobs': jobs2[i::common.NPROC]} for i in range(common.NPROC)])
     nontriv = set()
     pairs = []
+    nf_pairs = []
     k = 0
     for i in range(common.NPROC):
         for j, rec in enumerate(outs2[i]):
@@ -97,7 +98,22 @@ def run(rep, tier, build, replay=None):
                          {'first_difference': first_diff(rec['dump'][1], rec['redump'][1])})
             nontriv.add(common.canon_hash([r0, v]))
             pairs.append(lmfmodel.dump_case(v, dict(r0, lmf_version=v), rec))
+            if len(nf_pairs) < (120 if tier == 'quick' else 2500):
+                import addmodel
+                nf_pairs.append(([v, addmodel.val(r1)], 1))
     run_correspondence(rep, pairs, [lmfmodel.load_case(r) for r in loaded])
+    # the hypothesis of the round-trip theorems (normal form nf_resource) holds for what the real load returns for files
+    # the real dump wrote: evaluated in Coq on this run's resources
+    mism, info = common.coq_mismatches('WnV.Proofs.LmfNfRun', 'run_nf', 'sx_agree_default', nf_pairs, tag='c02nf', shard=20,
+                                       want_model_out=False)
+    if info['errors']:
+        rep.broke('normal-form evaluation failed in Coq: ' + '; '.join(info['errors'])[:1500])
+    if mism:
+        rep.broke('the normal form nf_resource of the round-trip theorems (Proofs/LmfRoundTrip.v) does not hold for %d of %d '
+                  'resources returned by load(dump(R)) of the implementation: the theorems no longer describe what load returns'
+                  % (len(mism), len(nf_pairs)))
+    rep.coverage['normal_form_hypothesis_checked_on'] = len(nf_pairs)
+    rep.coverage['normal_form_hypothesis_failures'] = len(mism)
     rep.coverage.update({
         'evaluations': k + len(jobs),
         'distinct_nontrivial': len(nontriv),
